@@ -1171,6 +1171,7 @@ pub fn run(prop: &str, tier: &str, report: &mut Report) {
         prefix: Vec<usize>,
         cost: usize,
     }
+    let mut divergences: Vec<String> = vec![];
     let mut frontier: Vec<Job> = (0..scs.len()).map(|i| Job { sc: i, prefix: vec![], cost: 0 }).collect();
     let mut outcomes: Vec<HashSet<String>> = vec![HashSet::new(); scs.len()];
     let mut execs: Vec<u64> = vec![0; scs.len()];
@@ -1201,6 +1202,12 @@ pub fn run(prop: &str, tier: &str, report: &mut Report) {
                 std::process::exit(2);
             }
             if let Some(e) = r["error"].as_str() {
+                if e.starts_with("replay divergence") {
+                    // the subject did not repeat its behaviour and this execution showed nothing:
+                    // decided at the end (a violation witnessed by another execution stands)
+                    divergences.push(format!("scenario {} prefix {:?}: {}", sc.name, j.prefix, e));
+                    continue;
+                }
                 eprintln!("HARNESS ERROR: scenario {} prefix {:?}: {}", sc.name, j.prefix, e);
                 std::process::exit(2);
             }
@@ -1253,6 +1260,13 @@ pub fn run(prop: &str, tier: &str, report: &mut Report) {
         }
         frontier = next;
         let _ = generation;
+    }
+    if !divergences.is_empty() {
+        if report.violations.is_empty() {
+            eprintln!("HARNESS ERROR: {} (and {} more): the subject is not deterministic under the controlled schedule and no execution violated the property", divergences[0], divergences.len() - 1);
+            std::process::exit(2);
+        }
+        report.cov("nondeterministic_subject", json!({"executions_that_left_their_prefix_without_a_finding": divergences.len(), "first": divergences[0]}));
     }
     for (i, sc) in scs.iter().enumerate() {
         all_outcomes += outcomes[i].len();
